@@ -36,7 +36,7 @@ m = {
     'engines': [{
         'name': 'symex', 'path': 'engine/',
         'serves_properties': [c['property_id'] for c in checks],
-        'kind_free_text': 'go/ssa exporter (engine/ssaexport, x/tools v0.29.0) + path-forking symbolic executor over the exported IR (engine/symex, Python, z3 5.1 in-process); harnesses under harness/<id>/ are ordinary in-package Go functions; SAT models are replayed natively with go test -overlay; translator validated per run by concrete differential execution against the native build',
+        'kind_free_text': 'go/ssa exporter (engine/ssaexport, x/tools v0.29.0) + path-forking symbolic executor over the exported IR (engine/symex, Python, z3 5.1 in-process); harnesses under harness/<id>/ are ordinary in-package Go functions; SAT models are replayed natively with go test -overlay; translator validated per run by concrete differential execution against the native build; environment functions (database, network) are cut by stubs present both in the encoding and - through source rewriting inside the go test overlay, never in /repo - in the native replay; in the thorough tier sampled unsat obligations are re-decided by z3 4.8.12 and cvc5 from their SMT-LIB2 text',
     }],
     'checks': checks,
     'notes': 'See DESIGN.md. Exit 0 = every obligation discharged (unsat) within the stated bounds; exit 1 + VIOLATION = a solver model that reproduced natively against the real build; exit 3 = cannot decide (harness does not build, engine limitation, inconclusive query) - never reported as a pass. Repo fix commits: see known_findings.txt.',
